@@ -109,6 +109,24 @@ def h_token(ctx, lmax):
              env.getToken(phone) == R.token(C._KEY, C._SIGNATURE, C._MD5_CLASSES, phone))]
 
 
+TOKEN_SHAPES = ["123", " 123", "123 ", "123\n", "\t4915900000001", "4915900000001\r\n", "49 159 0000", "+4915900000001", "004915900000001",
+                "\u0661\u0662\u0663", "123\u00a0", "\u2003123", "\x1c123", "123\x85", "", " "]
+
+
+def h_token_shapes(ctx):
+    """phone-number strings as they are typed or pasted (blanks and line ends at the edges, a plus sign, other scripts' digits): the
+    token is the keyed hash of exactly the string given (it travels next to that string in the request)"""
+    import yowsup.env.env_android as E
+    from ref import wa_registration_ref as R
+    phone = ctx.choice("phone", TOKEN_SHAPES)
+    other = ctx.choice("other", TOKEN_SHAPES)
+    env = _env(ctx, E)
+    C = type(env)
+    t1, t2 = env.getToken(phone), env.getToken(other)
+    return [("token == keyed SHA-1 over signature || classes || the phone string as given (%r)" % phone, t1 == R.token(C._KEY, C._SIGNATURE, C._MD5_CLASSES, phone)),
+            ("different phone strings never share a token (%r / %r)" % (phone, other), (t1 == t2) == (phone == other))]
+
+
 def h_token_twice(ctx, n1, n2):
     """two requests in one process: each token is a function of its own phone-number STRING (nothing carried over)"""
     import base64
@@ -399,7 +417,7 @@ def h_request_object(ctx):
 
 def cases(tier):
     q = tier == "quick"
-    cs = [dict(name="token-of-the-selected-environment[3 selections by name]", fn=h_token_of_current_env, keep_samples=8), dict(name="request-object[exists / code request, 3 sends]", fn=h_request_object, keep_samples=24, timeout_s=300), dict(name="token[L<=64]", fn=h_token, args=(64,)), dict(name="encode-int", fn=h_encode_int), dict(name="encrypt", fn=h_encrypt)]
+    cs = [dict(name="token-of-the-selected-environment[3 selections by name]", fn=h_token_of_current_env, keep_samples=8), dict(name="request-object[exists / code request, 3 sends]", fn=h_request_object, keep_samples=24, timeout_s=300), dict(name="token[L<=64]", fn=h_token, args=(64,)), dict(name="token[typed and pasted phone strings]", fn=h_token_shapes, keep_samples=16, max_paths=5000), dict(name="encode-int", fn=h_encode_int), dict(name="encrypt", fn=h_encrypt)]
     for n1, n2 in (((1, 2), (2, 1), (2, 2)) if q else ((1, 2), (2, 1), (2, 2), (3, 2), (2, 3), (3, 3), (4, 3))):
         cs.append(dict(name="token-twice[%d,%d digits]" % (n1, n2), fn=h_token_twice, args=(n1, n2)))
     cs.append(dict(name="encode-str[n=1,unicode]", fn=h_encode_str, args=(1,), weight=20, timeout_s=300, max_paths=400000))
